@@ -146,6 +146,12 @@ def build_kmodel(force=False):
             for it in se.group(1).split():
                 if it not in items:
                     items.append(it)
+    # the extracted modules must be compiled against the CURRENT Gen/*.vo (a changed source regenerates Gen/, and `prove`
+    # rebuilds only the closure of one Props file): bring the .vo of every required module up to date first.
+    rc, out = run_cmd(["make", "-j", str(min(16, os.cpu_count() or 4))] + ["theories/%s.vo" % m.replace(".", "/") for m in mods],
+                      cwd=COQ, timeout=3000)
+    if rc:
+        return False, "build of the extracted modules failed:\n%s" % out[-2000:]
     allv = os.path.join(ext, "ExtractAll.v")
     with open(allv, "w") as f:
         f.write("From Coq Require Import Extraction ExtrOcamlBasic ExtrOcamlNativeString.\n")
